@@ -692,6 +692,10 @@ func (s *Stream) Raw() ([]byte, error) {
 	if err := s.readFull(buf[start:]); err != nil {
 		return nil, err
 	}
+	if kind == String && size == 1 && buf[start] < 128 {
+		// a single byte below 0x80 must not be wrapped in a string header
+		return nil, ErrCanonSize
+	}
 	if kind == String {
 		puthead(buf, 0x80, 0xB7, size)
 	} else {
